@@ -354,9 +354,9 @@ def parser_compare(out, ref, length_factor=1.0 / 0.529167, near_cutoff=None):
             bad["mask_l"] += 1
         if g[2] != w[2]:
             bad["pair_molid"] += 1
-        if abs(g[3] - w[3] * length_factor) > 1e-9 * max(1.0, w[3] * length_factor):
+        if not (abs(g[3] - w[3] * length_factor) <= 1e-9 * max(1.0, w[3] * length_factor)):      # NaN counts as wrong
             bad["rij"] += 1
-        if max(abs(g[4][c] - w[4][c]) for c in range(3)) > 1e-9:
+        if not all(abs(g[4][c] - w[4][c]) <= 1e-9 for c in range(3)):
             bad["xij"] += 1
         if g[5] != ref["Z"][k[0]] or g[6] != ref["Z"][k[1]]:
             bad["ni/nj"] += 1
